@@ -35,6 +35,8 @@ MCInit == \/ \E s \in Strs : InitWith([op |-> "pct", in |-> s])
           \/ \E p \in {"connect", "grpc", "grpcweb"}, d \in Deadlines, pv \in Prevs :
                 InitWith([op |-> "deadline_e2e", proto |-> p, secs |-> d, d |-> 0, prev |-> pv])
           \/ \E p \in {"connect", "grpc", "grpcweb"}, pv \in Prevs : InitWith([op |-> "nodeadline_e2e", proto |-> p, prev |-> pv])
+          \* less than the encoding's granularity is left (900 us): still a timeout, never "none"
+          \/ \E p \in {"connect", "grpc", "grpcweb"} : InitWith([op |-> "deadline_e2e", proto |-> p, secs |-> 0, d |-> 900000, prev |-> -1])
           \* C12: the Spec a call's client interceptors and handler see, on a fresh / already used / forwarded Request
           \/ \E p \in {"connect", "grpc", "grpcweb"}, u \in {"fresh", "otherclient", "forwarded"},
                 b \in {"http://verif.test", "http://verif.test/api/v1", "http://verif.test/", "https://verif.test:8443/a.b/c/",
